@@ -32,13 +32,16 @@ type verifConn struct {
 	isClose bool
 	closeErr error
 	log     []verifWrite
+	writes  int
+	failAt  int // index of the WriteTo call that fails (-1: none)
 }
 
 func newVerifConn() *verifConn {
-	return &verifConn{in: make(chan verifDgram, 16), closed: make(chan struct{})}
+	return &verifConn{in: make(chan verifDgram, 16), closed: make(chan struct{}), failAt: -1}
 }
 
 var errVerifClosed = errors.New("verif: use of closed connection")
+var errVerifWrite = errors.New("verif: write failed")
 
 func (c *verifConn) ReadFrom(b []byte) (int, net.Addr, error) {
 	select {
@@ -52,6 +55,12 @@ func (c *verifConn) ReadFrom(b []byte) (int, net.Addr, error) {
 
 func (c *verifConn) WriteTo(b []byte, a net.Addr) (int, error) {
 	c.mu.Lock()
+	if c.writes == c.failAt {
+		c.writes++
+		c.mu.Unlock()
+		return 0, errVerifWrite
+	}
+	c.writes++
 	c.log = append(c.log, verifWrite{at: verifNow(), dest: a, data: append([]byte(nil), b...)})
 	c.mu.Unlock()
 	return len(b), nil
